@@ -316,14 +316,19 @@ def stream_histories(ctx, r):
             elif k < 0.82: lines.append("swap 0 1")
             elif k < 0.86: lines.append("sp 1")
             elif k < 0.90: lines.append("sp_sort 1")
-            else: lines.append(gen_sp_op(r, "sp", 0))
+            elif k < 0.95: lines.append(gen_sp_op(r, "sp", 0))
+            else:
+                # set(name, v) where a pair (name, v) is already there: first pair, a later duplicate, or not at all
+                q = r.choice(UNSORTED); prs = [x.partition("=") for x in q.split("&") if x]
+                nm, _, vl = r.choice(prs)
+                lines.append("sp_set 0 %s %s" % (tok(nm.replace("%41", "A").replace("%7e", "~")), tok(vl.replace("%41", "A").replace("%7e", "~"))))
         lines += ["sp_sort 0", "get 0", "get 1"]
         cases.append(Case(lines, "focused-history"))
     # a COPY of the params object of a URL is a detached value: it outlives its source (which is destroyed, replaced
     # by construction, moved from or re-parsed), is edited afterwards, and the source (if alive) must not change
     for rep in range(scale(ctx, 300, 4000)):
-        lines = ["parse 0 %s -" % tok("http://h/p?" + r.choice(UNSORTED)), "parse 2 %s -" % tok("https://o/q?k=v")]
-        if r.random() < 0.7: lines.append("sp 0")
+        lines = ["parse 0 %s -" % tok("http://h/p?" + r.choice(UNSORTED + ["?b=2&a=1", "?", "??x", "?=x&?"])), "parse 2 %s -" % tok("https://o/q?k=v")]
+        if r.random() < 0.6: lines.append("sp 0")
         lines.append(r.choice(["sp_snapshot 0 1", "sp_snapshot 0 1", "sp_take 0 1"]))
         k = r.random()
         if k < 0.25: lines.append("copyctor 0 2")          # the owner object is destroyed and replaced
@@ -362,12 +367,25 @@ def stream_histories(ctx, r):
             elif x < 0.925: lines.append("sp_snapshot %d %d" % (a, r.randint(0, 3)))
             elif x < 0.935: lines.append("sp_take %d %d" % (a, r.randint(0, 3)))
             elif x < 0.94: lines.append("swapf %d %d" % (a, b))
+            elif x < 0.9475: lines.append("%s %d %d" % (r.choice(["move", "safe_assign", "swap", "copy"]), a, a))      # onto itself
+            elif x < 0.95: lines.append("parse_selfbase %d %s" % (a, tok(r.choice(["x", "../y", "?q", "#f", "", "//h2/p", "a/" * 60]), "b")))
             elif x < 0.96: lines.append("sp_%s %d %d" % (r.choice(["assign", "safe_assign"]), a, r.randint(0, 3)))
             elif x < 0.98: lines.append("usp_new %d %s" % (r.randint(0, 3), tok(r.choice(["", "a=1&b=2", "?z=%F0%9F%92%A9&a=b"]))))
             else: lines.append("equals %d %d %s" % (a, b, r.choice("01")))
         lines += ["get 0", "get 1", "get 2"]
         cases.append(Case(lines, "history"))
     return cases
+
+def selfbase_lines(ctx, r, n):
+    """u.parse(reference, u.href()): the string-base overload with a base that is a view of the object's own buffer"""
+    lines = []
+    for _ in range(n):
+        st = r.choice(START_URLS + ["http://example.org/a/very/long/path/that/lives/on/the/heap/aaaaaaaaaaaaaaaaaaaaaaaaaaaaaaaaaaaaaaaaa/b?q=1#f"])
+        lines.append("parse 0 %s -" % tok(st))
+        for _ in range(r.randint(1, 3)):
+            rel = r.choice(["x", "../y", "/z", "?q2", "#f2", "", "//other/p", "a/very/long/relative/reference/" + "r" * r.choice([10, 100, 300]), "http://abs/", "\\\\h", "%zz", " ", "x:y"]) if r.random() < 0.7 else gens.gen_relative(r)
+            lines.append("parse_selfbase 0 %s" % tok(rel, "b"))
+    return lines
 
 def stream_canparse(ctx, r):
     cases = []
@@ -395,6 +413,8 @@ def stream_canparse(ctx, r):
                 elif k < 0.9: lines.append("ctor 1 %s 0" % tok(s, e))
                 else: lines.append("ctor_sb 1 %s %s" % (tok(s, e), tok(base, e)))
             cases.append(Case(lines, "canparse base=%r" % (base,)))
+    sb = selfbase_lines(ctx, r, scale(ctx, 200, 3000))
+    cases += [Case(sb[i:i + 200], "selfbase") for i in range(0, len(sb), 200)]
     return cases
 
 def stream_encodings(ctx, r):
@@ -469,6 +489,21 @@ def stream_ipv4(ctx, r):
     for rep in range(scale(ctx, 2000, 100000)):
         v = r.choice([0, 1, 255, 256, 65535, 65536, 16777215, 16777216, 4294967295, r.getrandbits(32), r.getrandbits(32) & 0xFF00FF00, r.getrandbits(8) << r.choice([0, 8, 16, 24])])
         lines.append("ipv4ser %d" % v)
+    # there is no longest IPv4 string: any number of redundant leading zeros, in any part, in any radix
+    for rep in range(scale(ctx, 400, 6000)):
+        nparts = r.randint(1, 4); parts = []
+        for i in range(nparts):
+            z = r.choice([0, 0, 1, 8, 11, 12, 20, 41, 42, 43, 56, 57, 62, 63, 64, 65, 100, 255, 256, 1000])
+            k = r.random()
+            if k < 0.4: parts.append("0x" + "0" * z + r.choice(["", "7f", "ff", "1", "ffffffff", "100000000", "g"]))
+            elif k < 0.8: parts.append("0" * (z + 1) + r.choice(["", "7", "377", "400", "37777777777", "40000000000", "8"]))
+            else: parts.append(r.choice(["1", "255", "256", "4294967295", "4294967296", "1" * (z + 1), "9" * z]))
+        s4 = ".".join(parts) + r.choice(["", "", "."])
+        e = r.choice(["b", "b", "h", "w"])
+        lines.append("ipv4 %s" % tok(s4, e)); lines.append("endsnum %s" % tok(s4, e))
+        if rep % 5 == 0:
+            lines.append("endsnum %s" % tok("example." + parts[-1], e))
+            lines.append("parse 0 %s -" % tok("http://" + s4 + "/", e)); lines.append("host %s" % tok("example." + parts[-1], e))
     # wide input whose code units alias digits, 'x' or '.' in their low byte
     for rep in range(scale(ctx, 500, 10000)):
         al = gens.lowbyte_alias(r, r.choice(["1.2.3.4", "0x7f.1", "0X10.010.9", "4294967295", "1.2.3", "0xabcdef", "017.0x1f.3", "1.2.3.4."]))
@@ -632,13 +667,16 @@ def stream_urlenc(ctx, r):
 def stream_usp(ctx, r):
     cases = []
     for rep in range(scale(ctx, 400, 5000)):
-        lines = ["usp_new 0 %s" % tok(r.choice(["", "?a=1&b=2&a=3", "z=1&\uffff=2&\U00010000=3&a=4&\ue000=5", "b=2&a=1&b=1&a=2", "=&=&a"]))]
+        lines = ["usp_new 0 %s" % tok(r.choice(["", "?a=1&b=2&a=3", "z=1&\uffff=2&\U00010000=3&a=4&\ue000=5", "b=2&a=1&b=1&a=2", "=&=&a", "ab=1&a=2&abc=3&b[x]=4&b=5&aa=6"]))]
         for _ in range(r.randint(1, scale(ctx, 20, 80))):
             k = r.random()
             if k < 0.75: lines.append(gen_sp_op(r, "usp", 0))
             elif k < 0.80:
                 e = r.choice(["b", "b", "h", "w", "W"])
                 lines.append("usp_pairs %d %s" % (r.choice([0, 1]), " ".join(tok(r.choice(SP_NAMES), e) for _ in range(2 * r.randint(0, 4)))))
+            elif k < 0.815:
+                op = r.choice(["has", "get", "getall", "del", "remove", "set", "has2", "del2"])
+                lines.append("usp_selfname 0 %s %d %d%s" % (op, r.randint(0, 4), r.choice([0, 1, 1, 2, 3, 50]), (" " + tok(r.choice(["", "v", "1", "2"]), "b")) if op in ("set", "has2", "del2") else ""))
             elif k < 0.83: lines.append("usp_swap %d %d" % (r.choice([0, 1]), r.choice([0, 1, 2])))
             elif k < 0.85: lines.append("usp_%s %d %d" % (r.choice(["move", "movector"]), *r.sample([0, 1, 2], 2)))
             elif k < 0.9: lines.append("usp_snapshot 0 1")
@@ -697,6 +735,13 @@ def stream_host(ctx, r):
         else:
             lines.append("parse 1 %s -" % tok(r.choice(["http://x/", "a://x/", "file://x/"])))
             lines.append("set 1 %s %s" % (r.choice(["host", "hostname"]), tok(d)))
+    # ToASCII results whose length straddles the 1024-unit inline buffers (1015..1035) and 2048, on the IDNA path
+    for n in list(range(1012, 1038)) + [2040, 2047, 2048, 2049]:
+        for tail in [".xn--bcher-kva", ".b\u00fccher", ".%C3%BC", "\u3002x"]:
+            alen = {".xn--bcher-kva": 14, ".b\u00fccher": 14, ".%C3%BC": 8, "\u3002x": 2}[tail]
+            h = ".".join(["a" * 60] * ((n - alen) // 61)) ; h = h + "." + "b" * (n - alen - len(h) - 1) if n - alen - len(h) - 1 > 0 else h
+            lines.append("host %s" % tok(h + tail, r.choice(["b", "h", "w"])))
+            if n % 3 == 0: lines.append("can_parse 1 %s -" % tok("http://" + h + tail + "/"))
     # the validate-only run of the host parser (can_parse) on the same hosts, and wide input whose code units
     # alias ASCII in their low byte, for special (domain) and non-special (opaque) hosts
     for d in gens.DOMAINS:
@@ -781,10 +826,23 @@ def stream_filepath(ctx, r):
     for rep in range(scale(ctx, 500, 10000)):
         u = "file://" + r.choice(["", "", "host", ".", "h.", "%2e", "1.1", "[::1]"]) + "/" + "/".join("".join(r.choice(["a", ".", "%2e", "%2F", "%5C", "%00", "C:", "C|", "%43%3A", "", "%FF", "%C3%BC", " ", "|"]) for _ in range(r.randint(0, 3))) for _ in range(r.randint(0, 4)))
         lines.append("parse 0 %s -" % tok(u)); lines.append("tofile 0 %s" % r.choice(["posix", "windows"]))
+    # very long UNC / drive paths: counters of path components cross 255/256 and 511/512, with a '..' or a NUL early or late
+    for rep in range(scale(ctx, 60, 600)):
+        n = r.choice([250, 254, 255, 256, 257, 258, 259, 300, 510, 511, 512, 513, 514, 520, 770])
+        comps = [r.choice(["d", "d", "dir", "x y", "\u00fc"]) for _ in range(n)]
+        k = r.random()
+        if k < 0.7:
+            comps[r.choice([0, 1, 2, 3, n // 2, n - 3, n - 1, min(n - 1, 255), min(n - 1, 256), min(n - 1, 257)])] = r.choice(["..", "..", ".", "a\x00b"])
+        pre = r.choice(["\\\\server\\share\\", "\\\\?\\UNC\\server\\share\\", "C:\\", "//server/share/", "\\\\?\\C:\\"])
+        sep = "/" if pre.startswith("//") else "\\"
+        lines.append("filert windows %s" % tok(pre + sep.join(comps), r.choice(["b", "h", "w"])))
+        if rep % 4 == 0:
+            lines.append("filert posix %s" % tok("/" + "/".join(comps), "b"))
     # URL -> path, aimed at each branch of path_from_file_url separately (drive letter without host, UNC by
     # host, UNC by four slashes) with the bytes every branch must refuse placed after the branch is chosen
     for rep in range(scale(ctx, 500, 10000)):
-        head = r.choice(["/C:", "/c|", "/C%3A", "/%43:", "/Z:", "/C:x", "//host/share", "///host/share", "/share", "", "/C:/..", "/C|/."])
+        head = r.choice(["/C:", "/c|", "/C%3A", "/%43:", "/Z:", "/C:x", "//host/share", "///host/share", "/share", "", "/C:/..", "/C|/.",
+                         "//%3F/C:", "///%3F/C:", "//%3f/UNC/h/s", "//%2E/pipe", "///%2e/C:", "/%5C%5C%3F%5CC:", "/%5C%5C.%5Cpipe", "//?/C:", "//./C:", "//%3F%3F/s", "//h%3F/s", "//%00/s", "//h/%3F"])
         host = r.choice(["", "", "", "localhost", "host", "h.", "1.1"])
         tail = "".join("/" + "".join(r.choice(["a", ".", "%2e", "%2F", "%5C", "%00", "%00", "b", "%7C", "%3A", ":", "|", " ", "%C3%BC", "%FF", "%0A"]) for _ in range(r.randint(0, 3))) for _ in range(r.randint(0, 3)))
         lines.append("parse 0 %s -" % tok("file://" + host + head + tail)); lines.append("tofile 0 windows")
@@ -929,6 +987,16 @@ def sample_icu_laws2(ctx):
             bad.append(("idna_idem", repr(bytes(rres)), l))
     return len(ins), len(results), bad
 
+def stream_fmt(ctx, r):
+    """stream insertion (operator<<) of the views the getters return, with field width / adjustment / fill"""
+    lines = []
+    for st in START_URLS + ["http://example.org/", "http://xn--bcher-kva.example/", "non-spec://h/", "file:///x"]:
+        lines.append("parse 0 %s -" % tok(st))
+        for w in [0, 1, 2, 6, 12, 40]:
+            for al in "lr":
+                lines.append("fmt 0 %d %s" % (w, al))
+    return [Case(lines[i:i + 500], "fmt") for i in range(0, len(lines), 500)]
+
 def stream_alias(ctx, r):
     """a setter called with the view one of the object's own getters returned (argument aliases the object)"""
     GET = ["href", "protocol", "username", "password", "host", "hostname", "port", "pathname", "search", "hash", "path"]
@@ -946,6 +1014,7 @@ def stream_alias(ctx, r):
 
 STREAMS = {
     "alias": (stream_alias, oracle_state),
+    "fmt": (stream_fmt, oracle_state),
     "parse": (stream_parse, oracle_state),
     "parse_exhaustive": (stream_parse_exhaustive, oracle_state),
     "reparse": (stream_reparse, oracle_reparse),
